@@ -30,14 +30,14 @@ RULE = (
 
 def plan(tier, seed):
     specs = []
-    n = 32 if tier == 'thorough' else 8
+    n = 64 if tier == 'thorough' else 8
     for k in range(n):
         specs.append(dict(kind='convert', sub=k,
-                          count=800 if tier == 'thorough' else 500,
+                          count=30000 if tier == 'thorough' else 500,
                           hashseed=k))
     for k in range(n):
         specs.append(dict(kind='ops', sub=k,
-                          count=160 if tier == 'thorough' else 100,
+                          count=6000 if tier == 'thorough' else 100,
                           hashseed=k))
     meta = dict(
         rule=RULE,
